@@ -127,6 +127,9 @@ type DecV struct {
 // CoinsV models sdk.Coins as a vector over a finite denomination universe (absent == 0).
 type CoinsV struct {
 	Amt map[string]Value
+	// mat is the []Coin this value was turned into when the program indexed / ranged over it: from then on the program may
+	// write through the slice (coins[i].Amount = x), so the list is the source of truth and every reader goes through it.
+	mat *SliceV
 }
 
 // DecCoinsV models sdk.DecCoins likewise (values scaled by 10^18).
